@@ -155,7 +155,21 @@ func r09a(c *core.Ctx) {
 				for i, e := range p.Edges {
 					if b, isC := core.ConstBool(e); isC {
 						if b {
-							trueFrom[p.Block().Preds[i]] = true
+							pred := p.Block().Preds[i]
+							trueFrom[pred] = true
+							// `if flag { truncated = true }`: the constant enters where another flag is true — that
+							// flag's own sources count as well (a per-section helper reports the skip through its result)
+							for _, cnd := range core.CondsAt(pred) {
+								if cnd.Val {
+									if _, isPhi := cnd.Cond.(*ssa.Phi); isPhi {
+										walk(cnd.Cond)
+									}
+								}
+							}
+							// `a || b` lowers to phi(true from the block that found a true | b): a is a source too
+							if iff, ok := pred.Instrs[len(pred.Instrs)-1].(*ssa.If); ok && len(pred.Succs) == 2 && pred.Succs[0] == p.Block() {
+								walk(iff.Cond)
+							}
 						}
 						continue
 					}
@@ -200,6 +214,32 @@ func r09a(c *core.Ctx) {
 		key := "count-follows-packed:" + sec
 		inc := core.Expr(st.Val) == "("+strings.TrimPrefix(core.Expr(fa), "&")+" + 1)"
 		if !inc {
+			// the count may be accumulated in a local counter first (a per-section helper returns how many elements it
+			// packed) and added once: field + n, where n starts at 0 and is incremented by 1 only where an element of
+			// that section was packed
+			if bo, isB := st.Val.(*ssa.BinOp); isB && bo.Op == token.ADD && core.Expr(bo.X) == strings.TrimPrefix(core.Expr(fa), "&") {
+				if incs, ok := counterIncrements(bo.Y); ok && len(incs) > 0 {
+					all := true
+					for _, ib := range incs {
+						okEdge := false
+						for _, l := range loops {
+							if l.section == sec {
+								if e := extractOf(l.pack.(ssa.Value), 1); e != nil && core.NilAt(e, ib.Block()) == core.IsNil {
+									okEdge = true
+								}
+							}
+						}
+						if !okEdge {
+							all = false
+						}
+					}
+					if all {
+						bySec[sec] = true
+						c.OK(key, st.Pos(), pk, "the "+f+" count is incremented once per element actually packed", "accumulated in a counter incremented on the packed path, added once")
+						return
+					}
+				}
+			}
 			c.Bad(key, st.Pos(), pk, "the "+f+" count written to the header is incremented once per element actually packed",
 				"stored value "+core.Expr(st.Val)+" is not an increment (a length taken before the loops counts skipped elements too)")
 			return
@@ -340,6 +380,21 @@ func r09b(c *core.Ctx) {
 		}
 		has512, hasPar := false, false
 		for i, e := range p.Edges {
+			// `size = max(size, 512)` under `size > 0` — the builtin spelling of the floor
+			if mc, isCall := e.(*ssa.Call); isCall {
+				if bi, isB := mc.Call.Value.(*ssa.Builtin); isB && bi.Name() == "max" && len(mc.Call.Args) == 2 {
+					var other ssa.Value
+					for j, a := range mc.Call.Args {
+						if k, isC := core.ConstInt(a); isC && k == 512 {
+							other = mc.Call.Args[1-j]
+						}
+					}
+					if other == ssa.Value(sizePar) && hasCond(p.Block().Preds[i], "(size > 0)", true) {
+						has512 = true
+						continue
+					}
+				}
+			}
 			if k, isC := core.ConstInt(e); isC && k == 512 {
 				pred := p.Block().Preds[i]
 				if hasCond(pred, "(size < 512)", true) && hasCond(pred, "(size > 0)", true) {
@@ -693,4 +748,44 @@ func r09d(c *core.Ctx) {
 		}
 	})
 	c.Check(len(bad) == 0, "sections-read-only", pk.Pos(), pk, "Pack never stores into the question/answer/authority slices (kept records stay unmodified and in order)", strings.Join(bad, "; "))
+}
+
+
+// counterIncrements: v is a counter — through phis its leaves are the constant 0 or `c + 1` with c again the counter.
+// Returns the increment instructions.
+func counterIncrements(v ssa.Value) ([]*ssa.BinOp, bool) {
+	var incs []*ssa.BinOp
+	seen := map[ssa.Value]bool{}
+	ok := true
+	var walk func(v ssa.Value)
+	walk = func(v ssa.Value) {
+		v = core.Unspill(v)
+		if seen[v] || !ok {
+			return
+		}
+		seen[v] = true
+		switch x := v.(type) {
+		case *ssa.Phi:
+			for _, e := range x.Edges {
+				walk(e)
+			}
+		case *ssa.Const:
+			if k, isC := core.ConstInt(x); !isC || k != 0 {
+				ok = false
+			}
+		case *ssa.BinOp:
+			if k, isC := core.ConstInt(x.Y); x.Op == token.ADD && isC && k == 1 {
+				incs = append(incs, x)
+				walk(x.X)
+				return
+			}
+			ok = false
+		case *ssa.Convert:
+			walk(x.X)
+		default:
+			ok = false
+		}
+	}
+	walk(v)
+	return incs, ok
 }
